@@ -34,6 +34,8 @@ def build_rows(market):
         if sym in market.get('late', {}):
             start = dt.date.fromisoformat(market['late'][sym])
         price = 10 ** rng.uniform(0.7, 2.7)
+        if sym in market.get('level', {}):
+            price = market['level'][sym]
         ratio = market.get('ratio', {}).get(sym, 1.0)
         dec = market.get('decimals', 4)
         rows = []
@@ -67,6 +69,18 @@ def rewrite(rows_by_sym, rw):
         keep = [dict(r) for r in rows if r['date'] <= T]
         fut = [dict(r) for r in rows if r['date'] > T]
         kind = rw['kind']
+        if kind == 'nonpositive':
+            # "arbitrary other values": zero and negative prices somewhere in the future
+            for r in fut:
+                if rng.random() < 0.3:
+                    r['open'] = rng.choice([0.0, -1.0, -r['open'] if r['open'] else -5.0])
+                if rng.random() < 0.3:
+                    r['close'] = rng.choice([-0.01, -2.5])
+                    r['adj'] = r['close']
+            if fut and all((r['open'] or 1) > 0 and (r['close'] or 1) > 0 for r in fut):
+                fut[-1]['close'] = fut[-1]['adj'] = -1.0
+            out[sym] = keep + fut
+            continue
         only = rw.get('only')          # optional: restrict to listed (sym, date) rows (directed twin)
         if only is not None:
             new = []
